@@ -139,7 +139,13 @@ PROPS["C07"] = {"module": "ScpiVerif.Props.C07", "domains": [{"name": "roundtrip
     "trusted_base": [KERNEL, CORR, PLATFORM, "libc number conversion as specified in Model/Prim.lean; float closeness rests on printf/strtod of the C library (trusted, compared on every run)"],
     "assumptions": ["writer side from C14 / C17 / C18, lexer side from C13, reader side from the context model"],
     "rule": "cases = a result script and the response it produced re-submitted as the parameter of the matching reader: all 2^8 and 2^16 values, boundary and random 32/64-bit values in bases 2, 8, 10, 16, strings over an alphabet with both quotes, blocks of 0..1100 random bytes, random and boundary floats / doubles; non-trivial = every case"}
-PROPS["C01"] = _pprop("ScpiVerif.Props.C01", [{"name": "p01", "cfgs": ["A", "B", "C", "D"], "keep": "P,R,M,X,A,Y"}, {"name": "lexer", "cfgs": ["A"]}], ["C01."],
+PROPS["C01"] = _pprop("ScpiVerif.Props.C01", [{"name": "p01", "cfgs": ["A", "B", "C", "D"], "keep": "P,R,M,X,A,Y"}, {"name": "lexer", "cfgs": ["A"]},
+    # the domains of the formatting / queue / heap / expression properties, for memory safety only: sanitizer faults and the
+    # 'wrote outside the buffer' clauses count for C01, model differences and the other clauses are their own property's business
+    {"name": "buffmt", "cfgs": ["A", "D"], "faults_only": True}, {"name": "intfmt", "cfgs": ["A"], "faults_only": True},
+    {"name": "expr", "cfgs": ["A"], "faults_only": True}, {"name": "errstr", "cfgs": ["A", "B"], "faults_only": True},
+    {"name": "heap", "cfgs": ["B"], "faults_only": True}, {"name": "queue", "cfgs": ["A", "C"], "faults_only": True}],
+    ["C01.", "C15.write_beyond_buffer", "C14.write_beyond_buffer", "C15.nul_terminator", "C14.nul_terminator"],
     "mutated messages (byte flips, deletions, insertions, syntax characters, truncation), input buffers of 2..200 bytes, queue capacities 1..4, random segmentation with over-long chunks and zero-length calls, in all four build configurations under ASan+UBSan with the buffer-tail poisoning hook")
 
 NOT_CLAIMED = {}
